@@ -1568,9 +1568,16 @@ class Crystal(object):
         Gmin = min(np.dot(G, G) for G in self.BZG)
         for k in kptfull:
             if np.dot(k, k) >= Gmin:
-                for G in self.BZG:
-                    if np.dot(k, G) > np.dot(G, G):
-                        k -= 2. * G
+                # folding across one plane can push k across a plane that was already checked, so
+                # repeat until nothing moves. Points on a zone face (to roundoff) stay where they are;
+                # every fold then shortens k by more than roundoff, so this terminates
+                folded = True
+                while folded:
+                    folded = False
+                    for G in self.BZG:
+                        if np.dot(k, G) > np.dot(G, G) * (1 + 1e-12):
+                            k -= 2. * G
+                            folded = True
         return kptfull
 
     def reducekptmesh(self, kptfull, threshold=None):
